@@ -35,6 +35,9 @@ type Scenario struct {
 	Argv       []S      `json:"argv"`
 	Completion S        `json:"completion"` // value of GO_FLAGS_COMPLETION ("" = unset)
 	HasPrelude bool     `json:"hasPrelude"` // a first ParseArgs(prelude) runs on the same parser before the judged call
+	LateGroup  bool     `json:"lateGroup"`  // with a prelude: the top-level groups marked late are added to the parser (AddGroup) between the two calls
+	RenameOpt  int      `json:"renameOpt"`  // with a prelude: the LongName field of this option (flat index, 0 = none) is assigned RenameLong between the two calls
+	RenameLong S        `json:"renameLong"`
 	Prelude    []S      `json:"prelude"`
 	Repeat     int      `json:"repeat"`        // C15: run the scenario this many times on fresh parsers; all observations must coincide
 	Tags       []string `json:"tags"`          // what the generator intended (evidence / sampling only)
@@ -315,7 +318,7 @@ func outClass(got string, err error) int {
 // runArgparse runs one scenario against the real library.
 func runArgparse(t *Tree, sc *Scenario, argv []S) (obs *Obs) {
 	obs = &Obs{ErrNames: []S{}, ErrList: []S{}, Values: [][]any{}, Pos: [][][]S{}, Retargs: []S{}, Chain: []int{}, Events: []event{}, IsSet: []bool{}}
-	b := Build(t, poptsOf(sc.POpts))
+	b := buildWith(t, poptsOf(sc.POpts), true, sc.HasPrelude && sc.LateGroup)
 	if b.err != nil {
 		obs.SetupErr = b.err.Error()
 		classifyErr(b.err, obs)
@@ -390,6 +393,15 @@ func runArgparse(t *Tree, sc *Scenario, argv []S) (obs *Obs) {
 		}()
 		os.Stdout, os.Stderr = so, se
 		b.log.evs = nil
+		b.AttachLate()
+		if sc.RenameOpt > 0 && sc.RenameOpt <= len(b.opts) {
+			want := b.opts[sc.RenameOpt-1].field
+			eachOption(p.Command, func(o *flags.Option) {
+				if o.Field().Name == want {
+					o.LongName = sc.RenameLong.String()
+				}
+			})
+		}
 	}
 	if len(sc.Completion) > 0 {
 		os.Setenv("GO_FLAGS_COMPLETION", sc.Completion.String())
